@@ -102,7 +102,7 @@ def build_real(n, lo, up, known, style: int, reuse_rng=None):
 def gen_vector(rng, n):
     size = 1 << n
     fam = rng.choice(["int", "dyadic", "float", "per_size", "unit", "degenerate", "crossed", "some_known", "negative",
-                      "narrow_big", "narrow_small", "one_narrow"])
+                      "narrow_big", "narrow_small", "one_narrow", "offset_box"])
     known = [False] * size
     known[0] = known[size - 1] = True
     if fam == "int":
@@ -130,6 +130,10 @@ def gen_vector(rng, n):
         up = list(lo)
         s1 = rng.randrange(1, size - 1) if size > 2 else 1
         up[s1] = lo[s1] * (1 + 1e-7)
+    elif fam == "offset_box":      # every bound near one huge common value, tiny differences between coalitions
+        base = rng.choice([1e6, -1e7])
+        lo = [base + rng.uniform(0, 3) for _ in range(size)]
+        up = [l + rng.random() * rng.choice([0, 1, 2]) for l in lo]
     elif fam == "per_size":
         w = [rng.randint(0, 4) for _ in range(n + 1)]
         lo = [float(rng.randint(-2, 2)) for _ in range(size)]
@@ -219,6 +223,22 @@ def run_case(ctx, case) -> None:
                                       f"inside the box > per-player maximum {real_max!r} (n={n})", c)
                     if abs(real_max - float(maxima[i])) > tol:
                         ctx.violation("player-maximum-wrong", f"player {i}: library maximum {real_max!r}, exact {float(maxima[i])!r} (n={n})", case)
+    # the per-player "best case" games are views: reading them (any way the Game protocol allows) must not move the bounds
+    try:
+        for i in range(n if n <= 6 else 2):
+            view = np.array(MaxGainGame(game, i).get_values(), dtype=np.float64)
+            want_view = np.array([up[s] if s >> i & 1 else lo[s] for s in range(size)])
+            ctx.count("max_gain_views_read")
+            if not np.array_equal(view, want_view):
+                ctx.violation("player-maximum-wrong", f"MaxGainGame(game, {i}).get_values() is not (upper where {i} is in, lower elsewhere) (n={n})", case)
+                break
+        now_lo, now_up = np.array(game.get_lower_bounds(), dtype=np.float64), np.array(game.get_upper_bounds(), dtype=np.float64)
+        again = float(compute_exploitability(game))
+        if not (np.array_equal(now_lo, np.array(lo, dtype=np.float64)) and np.array_equal(now_up, np.array(up, dtype=np.float64))) or again != got:
+            ctx.violation("reading-best-case-game-changes-bounds", f"after reading the per-player best-case games the bounds of the "
+                          f"incomplete game changed / exploitability went from {got!r} to {again!r} (n={n}, impl={case['impl']})", case)
+    except Exception as exc:
+        ctx.violation("exploitability-raised", f"MaxGainGame view: {type(exc).__name__}: {exc} (n={n})", case)
     crossed = any(l > u for l, u in zip(flo, fup))
     degenerate = all(l == u for l, u in zip(flo, fup))
     if not crossed and got < -tol:
